@@ -505,38 +505,51 @@ def S_col_id(si, ci):
 
 
 def _decisions(args):
-    """worker: for each path, does the code raise SubqueryError exactly where the transcribed catalogue Rq says so?"""
+    """worker: for each path, does the code raise SubqueryError exactly where the transcribed catalogue Rq (and, with explicit
+    alias() moves, the transcribed marker search of check_subquery) says so?  Paths on which an earlier alias() unblocked a verb
+    are also executed on Polars and the two results compared."""
     seed, paths = args
+    from . import compare as CMP
     from .replay import Replayer, exc_class
 
-    rp = Replayer(seed, backends=("sqlite",))
+    rp = Replayer(seed, backends=("polars", "sqlite"))
     R = rp.R
     agree = 0
     drift = []
+    wrong = []
     for pth in paths:
         si = rp.name_to_src[pth["srcname"]]
         t = rp.B.table("sqlite", si)
         colmap = {S_col_id(si, ci): t[n] for ci, (n, _) in enumerate(rp.B.srcs[si]["cols"])}
         nid = 100
         ok = True
+        permissive = False
+        vias = pth.get("via") or [False] * len(pth["moves"])
         for k, (m, need) in enumerate(zip(pth["moves"], pth["subquery"])):
             raised = False
             try:
                 t2 = R.apply_move(dict(m, i=1), [t], colmap)
             except Exception as e:  # noqa: BLE001
                 if exc_class(e) != "SubqueryError":
+                    wrong.append(dict(src=pth["srcname"], moves=pth["moves"][: k + 1], clause="accept", exc=exc_class(e),
+                                      detail=f"a verb the specification accepts raised {exc_class(e)}: {str(e)[:200]}"))
                     ok = None
                     break
                 raised = True
                 try:
                     t2 = R.apply_move(dict(m, i=1), [t >> R.alias(keep_col_refs=True)], colmap)
-                except Exception:  # noqa: BLE001
+                except Exception as e2:  # noqa: BLE001
+                    wrong.append(dict(src=pth["srcname"], moves=pth["moves"][: k + 1], clause="alias-unblocks", exc=exc_class(e2),
+                                      detail=f"alias() directly before the refused verb did not unblock it: {exc_class(e2)}: {str(e2)[:200]}"))
                     ok = None
                     break
-            if raised != (need != ""):
-                drift.append(dict(src=pth["srcname"], step=k, moves=pth["moves"][: k + 1], specification=need or "fits", code="SubqueryError" if raised else "accepted"))
+            if raised != (need != "") and ok:
+                drift.append(dict(src=pth["srcname"], step=k, moves=pth["moves"][: k + 1], specification=("accepted through the earlier alias()" if vias[k] else need or "fits"),
+                                  code="SubqueryError" if raised else "accepted"))
                 ok = False
-                break
+                if raised:
+                    break
+                permissive = True       # the code accepted what the transcription refuses: the result must then still be right
             if m["v"] in ("mutate", "summarize"):
                 for kv in m["kv"]:
                     colmap[nid] = t2[kv["n"]]
@@ -544,26 +557,72 @@ def _decisions(args):
             t = t2
         if ok:
             agree += 1
-    return agree, drift
+        if (permissive or (ok and any(vias))) and pth.get("sdef"):     # sdef: the rows are determined (no slice over an undefined order)
+            # the SELECT above the marker now holds several verbs: its result against Polars
+            try:
+                ds = t >> R.export(R.pdt.Polars())
+                tp = rp.B.table("polars", si)
+                cm = {S_col_id(si, ci): tp[n] for ci, (n, _) in enumerate(rp.B.srcs[si]["cols"])}
+                n2 = 100
+                for m in pth["moves"]:
+                    tp2 = R.apply_move(dict(m, i=1), [tp], cm)
+                    if m["v"] in ("mutate", "summarize"):
+                        for kv in m["kv"]:
+                            cm[n2] = tp2[kv["n"]]
+                            n2 += 1
+                    tp = tp2
+                dp = tp >> R.export(R.pdt.Polars())
+                why = None
+                if list(dp.columns) != list(ds.columns):
+                    why = f"columns differ: {dp.columns} vs {ds.columns}"
+                else:
+                    r = CMP.compare_rows(CMP.frame_rows(dp), CMP.frame_rows(ds), None, None)
+                    why = None if r is None else "Polars vs SQLite: " + r[1][:300]
+            except Exception as e:  # noqa: BLE001
+                why = f"raised {exc_class(e)}: {str(e)[:200]}"
+            if why is not None:
+                wrong.append(dict(src=pth["srcname"], moves=pth["moves"], detail=("the code accepted a verb the catalogue (spec) refuses; " if permissive else "") + why))
+    return agree, drift, wrong
+
+
+def _drift_kinds(drift):
+    out = {}
+    for d in drift:
+        k = f"specification: {d['specification']} / code: {d['code']} / verb: {d['moves'][-1]['v']}"
+        out[k] = out.get(k, 0) + 1
+    return out
 
 
 def phase_flat(ctx, phase):
     d = tlc.prepare(f"{ctx.prop}-flat-{os.getpid()}", ctx.seed)
     depth = phase.get("depth", 5)
     emit = bool(phase.get("paths"))
-    tlc.write_model(d, "MC_SqlFlat", dict(MaxDepth=depth, SrcSel=phase.get("srcs", [1, 6]), EmitPaths=emit), {}, view="View")
+    with_alias = bool(phase.get("alias"))
+    tlc.write_model(d, "MC_SqlFlat", dict(MaxDepth=depth, SrcSel=phase.get("srcs", [1, 6]), EmitPaths=emit, WithAlias=with_alias), {}, view="View",
+                    invariants=["KindsAgree", "KindsConservative"])
     found = []
     paths = []
     res = tlc.run(d, timeout=phase.get("timeout", 900), on_json=lambda o: (paths if o.get("path") else found).append(o))
+    if res["violations"]:
+        raise tlc.TlcError("model-level invariant violated in MC_SqlFlat:\n" + "\n".join(res.get("errctx", []) + res["log"][-40:]))
     if paths:
         n = 16
         futs = [ctx.get_pool().submit(_decisions, (ctx.seed, paths[w::n])) for w in range(n)]
-        agree, drift = 0, []
+        agree, drift, wrong = 0, [], []
         for fu in futs:
-            a, dr = fu.result()
+            a, dr, wr = fu.result()
             agree += a
             drift += dr
-        ctx.extra["catalogue_conformance"] = dict(paths=len(paths), decisions_agree=agree, drift=len(drift), drift_examples=drift[:5],
+            wrong += wr
+        for w in wrong:
+            ctx.failures.append(dict(clause=w.get("clause", "rows"), backend="sqlite", step=len(w["moves"]) - 1, tainted=False, src=[w["src"]], srcidx=0,
+                                     exc=w.get("exc"),
+                                     detail="design-level path (MC_SqlFlat, marker search of check_subquery): " + w["detail"],
+                                     moves=[dict(m, i=1) for m in w["moves"]], heap_obs=[], beh=w))
+        ctx.extra["catalogue_conformance" + ("_alias" if with_alias else "")] = dict(paths=len(paths), decisions_agree=agree, drift=len(drift), drift_examples=drift[:5],
+                                                  drift_kinds=_drift_kinds(drift),
+                                                  via_alias_paths=sum(1 for p in paths if any(p.get("via") or [])),
+                                                  via_alias_paths_compared_with_polars=sum(1 for p in paths if any(p.get("via") or []) and p.get("sdef")),
                                                   note="Rq (SqlFlat.tla) vs Cache.requires_subquery, step by step on SQLite; a disagreement is "
                                                        "'drift' (the design-level result no longer speaks for the code), not a violation by itself")
         ctx.behaviours += len(paths)
@@ -574,7 +633,7 @@ def phase_flat(ctx, phase):
         ctx.notes.append("SqlFlat exploration stopped at its time budget")
     ctx.tlc_states += res["states"]
     ctx.tlc_distinct += res["distinct"]
-    ctx.tlc_runs.append(dict(profile=f"sqlflat(depth {depth})", states=res["states"], distinct=res["distinct"],
+    ctx.tlc_runs.append(dict(profile=f"sqlflat(depth {depth}{', paths' if emit else ''}{', alias' if with_alias else ''})", states=res["states"], distinct=res["distinct"],
                              counterexamples=len(found), wall=round(res["wall"], 1), mode="bfs, design level (no code runs)"))
     confirmed = 0
     for cex in found[:200]:
@@ -585,7 +644,7 @@ def phase_flat(ctx, phase):
                                      detail="TLC: the catalogue accepts this verb order but the flattened SELECT differs from the sequential meaning; "
                                             "confirmed on the real code: " + why,
                                      moves=cex["moves"], heap_obs=[], beh=cex))
-    ctx.extra["sqlflat"] = dict(depth=depth, counterexamples_predicted=len(found), confirmed_on_code=confirmed,
+    ctx.extra["sqlflat" + ("_alias" if with_alias else "") + ("_paths" if emit else "")] = dict(depth=depth, counterexamples_predicted=len(found), confirmed_on_code=confirmed,
                                 drift=len(found) - confirmed,
                                 note="a predicted counterexample that the real code handles correctly means the transcription (SqlFlat.tla) "
                                      "no longer matches the code: recorded as drift, not as a violation")
